@@ -408,6 +408,15 @@ func (s *Stage) Execute() string {
 	horizon := s.Sc.Horizon.D()
 	reason := s.K.Run(horizon)
 	if reason == "horizon" {
+		// end the run at a point where no loop is inside a cycle: a loop that finds both its ticker and
+		// the cancelled context ready lets Go's select choose at random, which no seed controls
+		s.K.StopWhenIdle = true
+		if r := s.K.Run(horizon + 10*time.Second); r != "idle" && r != "horizon" {
+			reason = r
+		}
+		s.K.StopWhenIdle = false
+	}
+	if reason == "horizon" {
 		s.CancelledT = s.K.Now()
 		s.Cancel()
 		grace := s.Sc.Grace.D()
